@@ -22,7 +22,8 @@ GenParams == (1 :> [n |-> 0, recs |-> {}, acts |-> {}, fatalAt |-> {}])
 AllParams == { [n |-> n, recs |-> recs, acts |-> acts, fatalAt |-> {}] :
                  n \in NS, recs \in RECS, acts \in SUBSET (UNION {1..m : m \in NS}) }
 
-Admissible(p) == /\ p.recs \subseteq 1..p.n
+\* (a dataset holds at least one market item: MarketDataInMemory::new refuses any other)
+Admissible(p) == /\ p.recs \subseteq 1..p.n /\ p.recs # 1..p.n
                  /\ p.acts \subseteq (1..p.n) \ p.recs
                  /\ Cardinality(p.acts) <= MaxOrders
 
